@@ -209,57 +209,33 @@ def run_cfg(ctx, p, cfg):
         r.require(sep["check_char"] == s[:1] and len(set(s)) == 1, "check-compares-separator-char", detail="check_logger_name compares with %r; routing separator %r" % (sep["check_char"], s))
         r.require(set(sep["check_consts"]) <= {0, 1, len(s)} and len(s) in sep["check_consts"], "check-streak-equals-separator-length", detail="streak constants %s vs len(SEP)=%d" % (sorted(set(sep["check_consts"])), len(s)))
 
-    with ctx.rule("V6", "rejection edges of the name check", cfg) as r:
+    with ctx.rule("V6", "the language the name check accepts", cfg) as r:
+        # check_logger_name is read as a finite automaton over {separator character, any other character} and compared, state by
+        # state, with the reference (rules/namecheck.py): empty rejected; a run of separator characters longer than the
+        # separator rejected; a run of any other length than the separator's followed by another character rejected; a name
+        # ending inside a run rejected; everything else accepted
+        from rules import namecheck
         nc = name_checker(p)
-        f = p.fn(nc.callee)
+        f = p.fn_loops(nc.callee)
         sep = separator_facts(p)
-        L = len(sep["routing_sep"] or "::")
+        sepstr = sep["routing_sep"] or "::"
+        r.require(len(set(sepstr)) == 1, "separator-is-one-repeated-character", fn=f, detail="routing separator %r" % sepstr)
+        res = namecheck.compare(f, sepstr[0], len(sepstr))
+        seen_ = {}
+        for desc, ok in res:
+            n_ = seen_.get(desc, 0)
+            seen_[desc] = n_ + 1
+            r.require(ok, "automaton:%s%s" % (desc, "" if not n_ else " #%d" % n_), fn=f, detail=desc,
+                      fail_detail="check_logger_name disagrees with the reference language: %s" % desc)
+        r.floor("automaton-transitions", len(res), 9)
+        # every rejection names the offending input
         rets = q.ret_assignments(f)
-        errs = [(b, e) for b, e in rets if q.classify_ret(e) == "err"]
-        oks = [(b, e) for b, e in rets if q.classify_ret(e) == "ok"]
-        sigs = set()
-        for b, e in errs:
-            sigs.add(_cond_sig(f, b))
-            payload = [x for x in walk(e) if x[0] == "agg" and x[1] == CONFIG_ERROR]
-            r.require(bool(payload) and payload[0][2] == "InvalidLoggerName" and any(deep_strip(y) == ("param", 1) for y in walk(payload[0])), "err-names-input:bb", fn=f, detail="error carries the offending name") if False else None
-        want = {
-            frozenset({("is_empty", True)}),
-            frozenset({("is_empty", False), ("next", "Some"), ("ch==sep", True), ("streak>%d" % L, True)}),
-            frozenset({("is_empty", False), ("next", "Some"), ("ch==sep", False), ("streak>0", True), ("streak!=%d" % L, True)}),
-            frozenset({("is_empty", False), ("next", "None"), ("streak>0", True)}),
-        }
-        for w in sorted(want, key=lambda s: sorted(map(str, s))):
-            r.require(w in sigs, "rejects:" + ",".join("%s=%s" % kv for kv in sorted(w, key=str)), fn=f, detail="an Err return exists under exactly these branch conditions")
-        extra = sigs - want
-        r.require(not extra, "no-other-rejection", fn=f, detail="unexpected rejection conditions: %s" % [sorted(map(str, s)) for s in extra])
-        oksigs = {_cond_sig(f, b) for b, e in oks}
-        r.require(oksigs == {frozenset({("is_empty", False), ("next", "None"), ("streak>0", False)})}, "accepts-only-at-end-outside-a-streak", fn=f, detail="Ok conditions: %s" % [sorted(map(str, s)) for s in oksigs])
-        for b, e in errs:
+        errs = [(b_, e) for b_, e in rets if q.classify_ret(e) == "err"]
+        r.require(bool(errs), "has-rejections", fn=f, detail="Err returns: %d" % len(errs))
+        for n_, (b_, e) in enumerate(errs):
             payload = [x for x in walk(e) if x[0] == "agg" and x[1] == CONFIG_ERROR]
             okp = bool(payload) and payload[0][2] == "InvalidLoggerName" and any(deep_strip(y) == ("param", 1) for y in walk(payload[0]))
-            r.require(okp, "err-names-input:%s" % ",".join(sorted("%s=%s" % kv for kv in _cond_sig(f, b))), fn=f, detail="error is InvalidLoggerName(name.to_owned())")
-        # streak bookkeeping: +1 on the separator arm before the > L test, reset to 0 on the other arm
-        st = _streak_local(f)
-        incs, resets = [], []
-        for b, i, s in f.assigns():
-            if s["lhs"]["l"] == st and not s["lhs"]["p"]:
-                v = f._rvalue(s["rv"], frozenset([st]), 10, b)
-                if v == ("const", "int", 0):
-                    resets.append(b)
-                elif v[0] == "bin" and v[1] == "Add" and strip(v[3]) == ("const", "int", 1):
-                    incs.append(b)
-                elif v[0] == "field":
-                    incs.append(b)
-        r.require(len(incs) == 1 and len(resets) == 2, "streak-bookkeeping", fn=f, detail="streak += 1 sites: %d, streak = 0 sites: %d (initial + reset)" % (len(incs), len(resets)))
-        if incs:
-            sig = _cond_sig(f, incs[0])
-            r.require(("ch==sep", True) in sig, "increment-on-separator-arm", fn=f, detail="increment conditions: %s" % sorted(map(str, sig)))
-            gt = [blk["id"] for blk in f.blocks if blk["term"]["k"] == "switch" and _test_name(f, SwitchInfo(f, blk["id"]), L) == "streak>%d" % L]
-            r.require(bool(gt) and all(f.dominates(incs[0], g) for g in gt), "increment-before-length-test", fn=f, detail="the > len(SEP) test sees the incremented streak")
-        loop_resets = [b for b in resets if f.in_loop(b)]
-        if loop_resets:
-            sig = _cond_sig(f, loop_resets[0])
-            r.require(("ch==sep", False) in sig, "reset-on-other-characters", fn=f, detail="reset conditions: %s" % sorted(map(str, sig)))
+            r.require(okp, "err-names-input#%d" % n_, fn=f, detail="error is InvalidLoggerName(name.to_owned())")
 
 
 def _field_ty(p, adt_short, field):
@@ -310,6 +286,9 @@ def separator_facts(p):
     for blk in f.blocks:
         if blk["term"]["k"] == "switch" and blk["id"] in f.reachable_blocks():
             si = SwitchInfo(f, blk["id"])
+            if blk["term"].get("discr_ty") == "char":
+                # `match ch { ':' => .., _ => .. }`
+                chars.extend(chr(a["value"]) for a in blk["term"].get("arms", []) if isinstance(a.get("value"), int))
             nf = cmp_nf(si.discr, True)
             if nf:
                 for x in (deep_strip(nf[1]), deep_strip(nf[2])):
